@@ -104,4 +104,23 @@ example : exprPosRun (B "a[offset (1)]") =
     "OK (index (ident 61) (OFFSET (int 31))) 0:IndexExpr:0:13:Rbrack=12 1:Ident:0:1:NamePos=0,NameEnd=1 1:SubscriptSpecifierKeyword:2:12:KeywordPos=2,Rparen=11 2:IntLiteral:10:11:ValuePos=10,ValueEnd=11" := by
   decide +kernel
 
+/-! Task E, stage 1: `CaseExpr{Case, EndPos}` (End = EndPos + 3), its `CaseWhen{When}` (End = Then.end) and
+`CaseElse{Else}` (End = Expr.end) nodes, `IfExpr{If, Rparen}` -/
+
+example : exprPosRun (B " CASE a WHEN 1 THEN - 1 ELSE b END . f + IF ( x , y , z )") =
+    "OK (bin + (sel (case (ident 61) (when (int 31) (int 2d31)) (ident 62)) 66) (if (ident 78) (ident 79) (ident 7a))) 0:BinaryExpr:1:57:- 1:SelectorExpr:1:38:- 2:CaseExpr:1:34:Case=1,EndPos=31 3:Ident:6:7:NamePos=6,NameEnd=7 3:CaseWhen:8:23:When=8 4:IntLiteral:13:14:ValuePos=13,ValueEnd=14 4:IntLiteral:20:23:ValuePos=20,ValueEnd=23 3:CaseElse:24:30:Else=24 4:Ident:29:30:NamePos=29,NameEnd=30 2:Ident:37:38:NamePos=37,NameEnd=38 1:IfExpr:41:57:If=41,Rparen=56 2:Ident:46:47:NamePos=46,NameEnd=47 2:Ident:50:51:NamePos=50,NameEnd=51 2:Ident:54:55:NamePos=54,NameEnd=55" := by
+  decide +kernel
+
+/-! Task E, stage 2: `ArrayLiteral{Array = InvalidPos, Lbrack, Rbrack}`: Pos = Lbrack, End = Rbrack + 1 -/
+
+example : exprPosRun (B " [ 1 , a ] [ 0 ] || [ ]") =
+    "OK (bin || (index (array (int 31) (ident 61)) (expr (int 30))) (array)) 0:BinaryExpr:1:23:- 1:IndexExpr:1:16:Rbrack=15 2:ArrayLiteral:1:10:Array=-1,Lbrack=1,Rbrack=9 3:IntLiteral:3:4:ValuePos=3,ValueEnd=4 3:Ident:7:8:NamePos=7,NameEnd=8 2:ExprArg:13:14:- 3:IntLiteral:13:14:ValuePos=13,ValueEnd=14 1:ArrayLiteral:20:23:Array=-1,Lbrack=20,Rbrack=22" := by
+  decide +kernel
+
+/-! Task E, stage 3: `CastExpr{Cast, Rparen}` with its `NamedType` (Pos / End of the first / last `Ident` of the path) -/
+
+example : exprPosRun (B " CAST ( a AS b . c ) ") =
+    "OK (cast (ident 61) (named 62 63)) 0:CastExpr:1:20:Cast=1,Rparen=19 1:Ident:8:9:NamePos=8,NameEnd=9 1:NamedType:13:18:- 2:Ident:13:14:NamePos=13,NameEnd=14 2:Ident:17:18:NamePos=17,NameEnd=18" := by
+  decide +kernel
+
 end MF.Props.C05
